@@ -111,6 +111,9 @@ func (w *TW) Handshake(chain [][]*x509.Certificate) (v Verdict) {
 			raw = append(raw, c.Raw)
 		}
 	}
+	if len(chain) > 0 && len(chain[0]) > 0 {
+		_, chain = freshHandshake(chain[0][0], chain)
+	}
 	return w.HandshakeRaw(raw, chain)
 }
 
